@@ -47,7 +47,9 @@ def write_and_run(prop, name, q, oblig, result, run, per_oblig, sim_failure=None
 
 def write_sim_failure(prop, k, f):
     os.makedirs(os.path.join(VERIF, 'replay'), exist_ok=True)
-    path = os.path.join(VERIF, 'replay', '%s-sim-%d.json' % (prop, k))
+    import hashlib
+    tag = hashlib.sha256(json.dumps(f, sort_keys=True, default=repr).encode()).hexdigest()[:10]
+    path = os.path.join(VERIF, 'replay', '%s-sim-%s.json' % (prop, tag))
     with open(path, 'w') as fh:
         json.dump({'property': prop, 'obligation': 'bounded-stand-in', 'scenario': f, 'verdict': 'failing input found on the real code (bounded stand-in)'},
                   fh, indent=1, default=repr)
